@@ -20,14 +20,14 @@ fn depth_a(t: Tier) -> u32 {
     if t == Tier::Quick {
         3
     } else {
-        5
+        6
     }
 }
 fn depth_bc(t: Tier) -> u32 {
     if t == Tier::Quick {
         2
     } else {
-        3
+        4
     }
 }
 fn n_a(t: Tier) -> u64 {
@@ -44,14 +44,14 @@ pub fn prop() -> Prop {
     Prop::new(
         "C29",
         "Type compatibility checks match the specification",
-        "All stages enumerate their space completely. (a) every ordered pair of type references with at most 3 (thorough 5) \
+        "All stages enumerate their space completely. (a) every ordered pair of type references with at most 3 (thorough 6) \
          list wrappers over {Obj Obj2 Iface Iface2 Uni Int In}: Type::is_assignable_to == AreTypesCompatible. (b) every \
          (location type, location default in {none, value}, variable type, variable default in {none, value, null}) over \
-         the input types {Int, In} with at most 2 (3) list wrappers: `query($v: VT = d) { f(a: $v) }` against \
+         the input types {Int, In} with at most 2 (4) list wrappers: `query($v: VT = d) { f(a: $v) }` against \
          `type Query { f(a: LT = ld): Int } input In { x: Int }` is valid when IsVariableUsageAllowed holds and has a \
          DisallowedVariableUsage diagnostic when it does not; a `null` default for a non-null variable type is ill-typed \
          and skipped. (c) every (interface field type, implementing field type, implementer kind in {object, interface}) \
-         over the output types with at most 2 (3) list wrappers under a schema with Obj < Iface < Iface2, Obj < Iface2, \
+         over the output types with at most 2 (4) list wrappers under a schema with Obj < Iface < Iface2, Obj < Iface2, \
          Obj in Uni, Obj2 unrelated: `interface X { f: IT } type|interface Y implements X { f: OT }` validates iff \
          IsValidImplementationFieldType. (d) Schema::is_subtype for all 81 ordered pairs of 9 names. Non-trivial: the two \
          types differ in their wrappers (a-c) / the names differ (d). Distinct by rendered case.",
